@@ -10,10 +10,27 @@
 (* is the only thing that takes time).  Base = time units per second; the  *)
 (* jitter added to a wait is any value in 0..J-1.                          *)
 (*                                                                         *)
-(* A response is [cls, rak, ov]: its class, the form of its Retry-After    *)
-(* header ("none" | "secs" | "date") and the delay the header asks for in  *)
-(* time units *measured at the instant of the response* (seconds * Base,   *)
-(* or date - now).                                                         *)
+(* What the server does is a WIRE response [w, sp, rak, ov]: its kind, the  *)
+(* spelling of the body of a 200, the form of its Retry-After header        *)
+(* ("none" | "secs" | "date") and the delay the header asks for in time     *)
+(* units *measured at the instant of the response* (seconds * Base, or date *)
+(* - now).  Wire kinds:                                                     *)
+(*   b200    status 200, body spelled sp     neterr  transport error        *)
+(*   redir   a chain of redirects, at least one of which (301/302/303)      *)
+(*           turns the POST into a GET; the target answers a perfect 200    *)
+(*   pres    a chain of 307/308 redirects (the POST stays a POST); the      *)
+(*           target answers 200 with a body spelled sp                      *)
+(*   loop    redirects for ever                                             *)
+(*   s408 / s429 / s503 / other (every other status)                        *)
+(* What the submission loop SEES of it is a class (the classes the property *)
+(* speaks about) and depends on two further dimensions:                     *)
+(*   - the spelling sp of a 200 body: every legal JSON spelling (RFC 8259)  *)
+(*     of the correct response is "a body that parses" (OkSpell), every     *)
+(*     other body is unparsable (BadSpell; base64 without its padding or in *)
+(*     the URL alphabet is not the base64 of RFC 6962 / RFC 4648 s4);       *)
+(*   - the http.Client the caller handed to the client (hc): whether it     *)
+(*     follows redirects (no CheckRedirect of its own, or one that lets     *)
+(*     them pass), hands the 3xx back (ErrUseLastResponse) or refuses them. *)
 (*   ok      200 whose body parses          bad200  200 whose body does not *)
 (*   neterr  transport error                redir   a redirect made the     *)
 (*   s408 / s429 / s503                             POST another method     *)
@@ -21,7 +38,12 @@
 (* Named clauses for what the property text leaves open (the code has a    *)
 (* definite behaviour): a redirected POST is handled like a transport      *)
 (* error (RedirectIsError); Retry-After is only looked at on 429 / 503;    *)
-(* the multiplier is never decreased by this path.                         *)
+(* the multiplier is never decreased by this path; a 3xx the caller's      *)
+(* policy hands back is a status like any other (UseLastIsStatus); a       *)
+(* redirect the policy refuses (the caller's, or net/http's limit of 10    *)
+(* hops on a loop) is either a transport error or that 3xx status - never  *)
+(* a success (RefusedIsNotOK; which of the two is left open: it depends on *)
+(* whether the handed-back, already closed 3xx body can still be read).    *)
 (***************************************************************************)
 EXTENDS Integers, Sequences, FiniteSets, TLC
 
@@ -46,8 +68,38 @@ Classes   == {"ok", "bad200", "neterr", "redir", "s408", "s429", "s503", "other"
 Retryable == {"bad200", "neterr", "redir", "s408", "s429", "s503"}
 Terminal  == {"ok", "other"}
 RAKinds   == {"none", "secs", "date"}
-Resp(cls, rak, ov) == [cls |-> cls, rak |-> rak, ov |-> ov]
-NoResp == Resp("none", "none", 0)
+
+(* ---- the wire, the spelling of a 200 body, the caller's http.Client ---- *)
+WireKinds == {"b200", "neterr", "redir", "pres", "loop", "s408", "s429", "s503", "other"}
+\* legal spellings of the complete, correct response (RFC 8259): the canonical text; "/" written "\/"; characters of
+\* string values written \uXXXX; characters of member names written \uXXXX; insignificant white space between tokens
+\* and around the value; members in another order; unknown extra members (scalars); unknown extra members holding
+\* objects / arrays that repeat the known names; white space after the value; all of these at once
+OkSpell  == {"canon", "solidus", "uescape", "keyescape", "space", "order", "extra", "nested", "trailws", "combo"}
+\* not a parsable response: not JSON at all; nothing; cut short; base64 members without padding; base64 members in the
+\* URL alphabet; a member of the wrong JSON type; bytes after the value; an escape JSON does not have; a raw control
+\* character inside a string; a character outside the base64 alphabet; an array instead of the object
+BadSpell == {"html", "empty", "trunc", "nopad", "urlsafe", "wrongtype", "tailgarbage", "badescape", "ctrlchar",
+             "b64garbage", "arraytop"}
+NoSpell  == "-"
+BodyClass(sp) == IF sp \in OkSpell THEN "ok" ELSE "bad200"
+\* the caller's http.Client: none at all, a plain one, with a CheckRedirect of its own that lets redirects pass /
+\* bounds the hops (above every finite chain here), with a cookie jar, with a Timeout (never reached: the server
+\* answers at once) - all of these FOLLOW redirects; "uselast" hands the 3xx back, "refuse" refuses every redirect
+Followers == {"nil", "plain", "follow", "limit", "jar", "timeout"}
+HCKinds   == Followers \cup {"uselast", "refuse"}
+Refused   == {"neterr", "other"}
+\* the classes the submission loop may see of wire kind w (body spelled sp) through a client configured h
+Seen(h, w, sp) ==
+  CASE w = "b200"  -> {BodyClass(sp)}
+    [] w = "redir" -> IF h \in Followers THEN {"redir"} ELSE IF h = "uselast" THEN {"other"} ELSE Refused
+    [] w = "pres"  -> IF h \in Followers THEN {BodyClass(sp)} ELSE IF h = "uselast" THEN {"other"} ELSE Refused
+    [] w = "loop"  -> IF h = "uselast" THEN {"other"} ELSE Refused
+    [] OTHER       -> {w}
+Wire(w, sp, rak, ov) == [w |-> w, sp |-> sp, rak |-> rak, ov |-> ov]
+\* a response as the submission loop holds it: the class seen, and the wire response it came from
+Resp(cls, r) == [cls |-> cls, rak |-> r.rak, ov |-> r.ov, w |-> r.w, sp |-> r.sp]
+NoResp == [cls |-> "none", rak |-> "none", ov |-> 0, w |-> "none", sp |-> NoSpell]
 \* the server asked for a specific delay
 Asks(r) == r.cls \in {"s429", "s503"} /\ r.rak # "none"
 
@@ -65,6 +117,7 @@ SetBackoff(m, nb, t, has, ov) ==
          IN  [mult |-> m2, nb |-> t + Base * Pow2(m2 - 1)]
 
 VARIABLES
+  hc,         \* the http.Client configuration of the client (fixed for the life of a client)
   now,        \* logical time
   mult,       \* shared: back-off multiplier 0..MaxMult
   notBefore,  \* shared: no request before this instant
@@ -82,7 +135,7 @@ VARIABLES
   hist        \* the behaviour (only when Record)
 
 shared == <<mult, notBefore>>
-vars == <<now, mult, notBefore, pc, ctxEnd, ctxDone, until, result, lastResp, n,
+vars == <<hc, now, mult, notBefore, pc, ctxEnd, ctxDone, until, result, lastResp, n,
           lastPost, minNext, askUntil, hist>>
 
 Log(e) == hist' = IF Record THEN Append(hist, e) ELSE hist
@@ -94,17 +147,19 @@ Clear(c) == /\ until' = [until EXCEPT ![c] = 0]
             /\ lastPost' = [lastPost EXCEPT ![c] = -1]
             /\ minNext' = [minNext EXCEPT ![c] = 0]
 
-\* PostAndParse: one request/response exchange (the context is still alive)
-Post(c, r) ==
+\* PostAndParse: one request/response exchange (the context is still alive); the wire response wr is seen as class k
+Post(c, wr, k) ==
   /\ pc[c] = "posting" /\ ~ctxDone[c]
-  /\ pc' = [pc EXCEPT ![c] = "decided"]
-  /\ lastResp' = [lastResp EXCEPT ![c] = r]
-  /\ lastPost' = [lastPost EXCEPT ![c] = now]
-  /\ minNext' = [minNext EXCEPT ![c] = IF Asks(r) THEN now + r.ov ELSE now]
-  /\ n' = [n EXCEPT ![c] = Min(n[c] + 1, MaxLen)]
-  /\ Log([a |-> "Post", c |-> c, t |-> now, cls |-> r.cls, rak |-> r.rak, ov |-> r.ov,
-          mult |-> mult, nb |-> notBefore])
-  /\ UNCHANGED <<now, mult, notBefore, ctxEnd, ctxDone, until, result, askUntil>>
+  /\ k \in Seen(hc, wr.w, wr.sp)
+  /\ LET r == Resp(k, wr) IN
+     /\ pc' = [pc EXCEPT ![c] = "decided"]
+     /\ lastResp' = [lastResp EXCEPT ![c] = r]
+     /\ lastPost' = [lastPost EXCEPT ![c] = now]
+     /\ minNext' = [minNext EXCEPT ![c] = IF Asks(r) THEN now + r.ov ELSE now]
+     /\ n' = [n EXCEPT ![c] = Min(n[c] + 1, MaxLen)]
+     /\ Log([a |-> "Post", c |-> c, t |-> now, cls |-> r.cls, w |-> r.w, sp |-> r.sp, rak |-> r.rak, ov |-> r.ov,
+             mult |-> mult, nb |-> notBefore])
+  /\ UNCHANGED <<hc, now, mult, notBefore, ctxEnd, ctxDone, until, result, askUntil>>
 
 \* PostAndParse with a context that has ended: the context's error, no request
 PostCtx(c) ==
@@ -113,7 +168,7 @@ PostCtx(c) ==
   /\ result' = [result EXCEPT ![c] = Res("ctx")]
   /\ Log([a |-> "Ret", c |-> c, t |-> now, res |-> "ctx"])
   /\ Clear(c)
-  /\ UNCHANGED <<now, mult, notBefore, ctxEnd, ctxDone, lastResp, n, askUntil>>
+  /\ UNCHANGED <<hc, now, mult, notBefore, ctxEnd, ctxDone, lastResp, n, askUntil>>
 
 \* the status switch of PostAndParseWithRetry, including backoff.set under its mutex
 Decide(c) ==
@@ -138,7 +193,7 @@ Decide(c) ==
           /\ askUntil' = IF Asks(r) THEN Max(askUntil, now + r.ov) ELSE askUntil
           /\ Log([a |-> "Set", c |-> c, t |-> now, mult |-> s.mult, nb |-> s.nb])
           /\ UNCHANGED <<result, until, lastPost, minNext>>
-  /\ UNCHANGED <<now, ctxEnd, ctxDone, n>>
+  /\ UNCHANGED <<hc, now, ctxEnd, ctxDone, n>>
 
 \* waitForBackoff: reads the shared not-before instant, adds this wait's jitter, arms the timer
 StartWait(c, j) ==
@@ -146,13 +201,13 @@ StartWait(c, j) ==
   /\ pc' = [pc EXCEPT ![c] = "waiting"]
   /\ until' = [until EXCEPT ![c] = notBefore + j]
   /\ Log([a |-> "Wait", c |-> c, t |-> now, until |-> notBefore + j, j |-> j])
-  /\ UNCHANGED <<now, mult, notBefore, ctxEnd, ctxDone, result, lastResp, n, lastPost, minNext, askUntil>>
+  /\ UNCHANGED <<hc, now, mult, notBefore, ctxEnd, ctxDone, result, lastResp, n, lastPost, minNext, askUntil>>
 
 TimerFires(c) ==
   /\ pc[c] = "waiting" /\ now >= until[c]
   /\ pc' = [pc EXCEPT ![c] = "posting"]
   /\ until' = [until EXCEPT ![c] = 0]
-  /\ UNCHANGED <<now, mult, notBefore, ctxEnd, ctxDone, result, lastResp, n, lastPost, minNext, askUntil, hist>>
+  /\ UNCHANGED <<hc, now, mult, notBefore, ctxEnd, ctxDone, result, lastResp, n, lastPost, minNext, askUntil, hist>>
 
 \* the caller's context ends (deadline reached or cancelled at that instant)
 CtxEnds(c) ==
@@ -160,7 +215,7 @@ CtxEnds(c) ==
   /\ ctxEnd[c] # NoEnd /\ now >= ctxEnd[c]
   /\ ctxDone' = [ctxDone EXCEPT ![c] = TRUE]
   /\ Log([a |-> "Ctx", c |-> c, t |-> now])
-  /\ UNCHANGED <<now, mult, notBefore, pc, ctxEnd, until, result, lastResp, n, lastPost, minNext, askUntil>>
+  /\ UNCHANGED <<hc, now, mult, notBefore, pc, ctxEnd, until, result, lastResp, n, lastPost, minNext, askUntil>>
 
 \* the select in waitForBackoff takes the context branch
 CtxReturn(c) ==
@@ -169,7 +224,7 @@ CtxReturn(c) ==
   /\ result' = [result EXCEPT ![c] = Res("ctx")]
   /\ Log([a |-> "Ret", c |-> c, t |-> now, res |-> "ctx"])
   /\ Clear(c)
-  /\ UNCHANGED <<now, mult, notBefore, ctxEnd, ctxDone, lastResp, n, askUntil>>
+  /\ UNCHANGED <<hc, now, mult, notBefore, ctxEnd, ctxDone, lastResp, n, askUntil>>
 
 (* ---- time ---- *)
 CtxPending(c) == pc[c] \notin {"idle", "done"} /\ ~ctxDone[c] /\ ctxEnd[c] # NoEnd
@@ -184,19 +239,22 @@ Advance ==
   /\ ~Urgent
   /\ Deadlines # {}
   /\ now' = SetMin(Deadlines)
-  /\ UNCHANGED <<mult, notBefore, pc, ctxEnd, ctxDone, until, result, lastResp, n, lastPost, minNext, askUntil, hist>>
+  /\ UNCHANGED <<hc, mult, notBefore, pc, ctxEnd, ctxDone, until, result, lastResp, n, lastPost, minNext, askUntil, hist>>
 
 CallerStep(c) == \/ PostCtx(c) \/ Decide(c) \/ TimerFires(c) \/ CtxEnds(c) \/ CtxReturn(c)
                  \/ \E j \in 0..(J - 1) : StartWait(c, j)
 
 (* ---- the property (C13) ---- *)
 TypeOK ==
+  /\ hc \in HCKinds
   /\ now \in Nat /\ mult \in 0..MaxMult /\ notBefore \in Int
   /\ \A c \in Callers :
        /\ pc[c] \in {"idle", "posting", "decided", "setdone", "waiting", "done"}
        /\ result[c].k \in {"none", "ok", "status", "ctx"}
        /\ (pc[c] = "done") = (result[c] # NoRes)
-       /\ lastResp[c] = NoResp \/ (pc[c] = "decided" /\ lastResp[c].cls \in Classes)
+       /\ lastResp[c] = NoResp \/ (/\ pc[c] = "decided" /\ lastResp[c].cls \in Classes
+                                     /\ lastResp[c].w \in WireKinds
+                                     /\ lastResp[c].cls \in Seen(hc, lastResp[c].w, lastResp[c].sp))
 
 \* a c-step that leaves "decided"
 Decides(c) == pc[c] = "decided" /\ pc'[c] # "decided"
@@ -262,14 +320,33 @@ CtxResult == \A c \in Callers : result[c].k = "ctx" => ctxDone[c]
 \* ... and it does return (liveness, weak fairness of every caller's steps)
 PromptCtx == \A c \in Callers : (ctxDone[c] /\ pc[c] # "idle") ~> (pc[c] = "done")
 
-\* a redirected POST is never treated as success (it is retried like a transport error)
+\* a POST that a redirect turned into another method is never treated as success - through whatever http.Client the
+\* caller supplied (the wire kind decides, not what the client made of it); nor is a redirect loop; where the client
+\* followed the redirect, the converted POST is retried like a transport error (RedirectIsError)
 RedirectNotOKStep == \A c \in Callers :
-                       (Decides(c) /\ lastResp[c].cls = "redir") => (pc'[c] = "setdone" /\ result'[c] = NoRes)
+                       /\ (Decides(c) /\ lastResp[c].w \in {"redir", "loop"}) => result'[c].k # "ok"
+                       /\ (Decides(c) /\ lastResp[c].cls = "redir") => (pc'[c] = "setdone" /\ result'[c] = NoRes)
 RedirectNotOK == [][RedirectNotOKStep]_vars
+
+\* "the first 200 response whose body parses" is about the response, not about its spelling: every legal spelling of
+\* the correct body ends the submission with success, every other body of a 200 is retried - also at the far end of
+\* method-preserving redirects the client followed
+SpellingStep == \A c \in Callers :
+                  (Decides(c) /\ (lastResp[c].w = "b200" \/ (lastResp[c].w = "pres" /\ hc \in Followers))) =>
+                      /\ lastResp[c].sp \in OkSpell  => (pc'[c] = "done" /\ result'[c].k = "ok")
+                      /\ lastResp[c].sp \in BadSpell => (pc'[c] = "setdone" /\ result'[c] = NoRes)
+SpellingIrrelevant == [][SpellingStep]_vars
+\* a 3xx the caller's policy hands back, and a refused redirect seen as its 3xx, are statuses like any other;
+\* a refused redirect is otherwise a transport error
+HandedBackStep == \A c \in Callers :
+                    (Decides(c) /\ lastResp[c].w \in {"redir", "pres", "loop"} /\ hc \notin Followers) =>
+                        \/ pc'[c] = "done" /\ result'[c].k = "status" /\ now' = now
+                        \/ hc = "refuse" /\ pc'[c] = "setdone" /\ result'[c] = NoRes
+HandedBack == [][HandedBackStep]_vars
 
 \* every step clause at once (used by the trace specification on the steps of recorded executions)
 AllStepClauses == /\ FirstGood200Step /\ RetryOnlyOnStep /\ OthersImmediateStep /\ HonoursRetryAfterStep
                   /\ CapPlusJitterStep /\ NoDelayOn408Step /\ WaitIsBackoffPlusJitterStep /\ UntilInWindowStep
                   /\ PendingOnlyExtendedStep /\ MultMonotoneStep /\ NoPostAfterCtxStep /\ PromptCtxSafeStep
-                  /\ RedirectNotOKStep
+                  /\ RedirectNotOKStep /\ SpellingStep /\ HandedBackStep
 =============================================================================
